@@ -143,7 +143,72 @@ type EncSpec struct {
 
 var EncNames = []string{"I32", "String16", "VarEnc", "Dummy", "I8", "I16", "I64", "Int", "U16", "U32", "U64", "Bytes3", "Type"}
 
+// laneTable lists, for a width in bytes, the values whose byte lanes are all in
+// {00,01,7f,80,ff}, starting with min, max, -1, 0, 1.
+func laneTable(width int) []uint64 {
+	lanes := []byte{0x00, 0x01, 0x7f, 0x80, 0xff}
+	mask := ^uint64(0)
+	if width < 8 {
+		mask = (uint64(1) << (8 * uint(width))) - 1
+	}
+	t := []uint64{uint64(1) << (8*uint(width) - 1), mask >> 1, mask, 0, 1}
+	seen := map[uint64]bool{}
+	for _, x := range t {
+		seen[x] = true
+	}
+	n := 1
+	for i := 0; i < width; i++ {
+		n *= len(lanes)
+	}
+	// a fixed pseudo-shuffled order so that neighbouring ids differ in many lanes
+	step := 7
+	for n%step == 0 {
+		step += 2
+	}
+	x := 3 % n
+	for i := 0; i < n && len(t) < 2048; i++ {
+		var u uint64
+		y := x
+		for b := 0; b < width; b++ {
+			u |= uint64(lanes[y%len(lanes)]) << (8 * uint(b))
+			y /= len(lanes)
+		}
+		if !seen[u] {
+			seen[u] = true
+			t = append(t, u)
+		}
+		x = (x + step) % n
+	}
+	return t
+}
+
+var laneTables = map[int][]uint64{1: laneTable(1), 2: laneTable(2), 4: laneTable(4), 8: laneTable(8)}
+
+// laneEnc parses names like "I16L:3" -> (width, rotation, true).
+func laneEnc(name string) (int, int, bool) {
+	i := strings.Index(name, "L:")
+	if i < 0 {
+		return 0, 0, false
+	}
+	var w, rot int
+	fmt.Sscanf(name[1:i], "%d", &w)
+	fmt.Sscanf(name[i+2:], "%d", &rot)
+	return w / 8, rot, true
+}
+
 func (e EncSpec) Encoder() encode.Encoder {
+	if w, _, ok := laneEnc(e.Name); ok {
+		switch w {
+		case 1:
+			return encode.I8{}
+		case 2:
+			return encode.I16{}
+		case 4:
+			return encode.I32{}
+		case 8:
+			return encode.I64{}
+		}
+	}
 	switch e.Name {
 	case "I32":
 		return encode.I32{}
@@ -195,6 +260,41 @@ func (e EncSpec) FixedWidth() int {
 // For VarEnc id 0 encodes to the empty slice.
 func (e EncSpec) Values(ids []int) interface{} {
 	n := len(ids)
+	if w, rot, ok := laneEnc(e.Name); ok {
+		t := laneTables[w]
+		val := func(id int) uint64 {
+			if id >= 1000 {
+				id = id - 1000 + 16
+			}
+			return t[(id+rot)%len(t)]
+		}
+		switch w {
+		case 1:
+			r := make([]int8, n)
+			for i, x := range ids {
+				r[i] = int8(val(x))
+			}
+			return r
+		case 2:
+			r := make([]int16, n)
+			for i, x := range ids {
+				r[i] = int16(val(x))
+			}
+			return r
+		case 4:
+			r := make([]int32, n)
+			for i, x := range ids {
+				r[i] = int32(val(x))
+			}
+			return r
+		case 8:
+			r := make([]int64, n)
+			for i, x := range ids {
+				r[i] = int64(val(x))
+			}
+			return r
+		}
+	}
 	switch e.Name {
 	case "I32":
 		r := make([]int32, n)
